@@ -150,7 +150,42 @@ class Tracer(object):
         return None
 
 
+def dead_survivors(tr):
+    """the direct law of C06's "their pending tasks and waits are cancelled": after every step, no canceller (a task request
+    or Wait timer outstanding) belongs to a branch of an attempt that is terminated, or nested at any depth in a branch of
+    one that is, or to any branch once the execution has ended.  -> [(step, state name, reason)]"""
+    out = []
+    for k, st in enumerate(tr.steps):
+        a = st["after"]
+        if a is None or a["bm"] is None:
+            continue
+        ended = a["status"] not in (None, "RUNNING")
+        for cid in sorted(a["cancellers"]):
+            body = tr.bodies.get(cid)
+            if not body or ((body.get("context") or {}).get("Execution") or {}).get("Id") != tr.ea:
+                continue
+            stack = branch_stack(body)
+            if not stack:
+                continue
+            name = ((body.get("context") or {}).get("State") or {}).get("Name")
+            dead = [e.get("ID") for e in stack if (a["bm"].get(e.get("ID")) or {}).get("terminated") is not None]
+            if dead:
+                out.append([k, name, "enclosing attempt terminated"])
+            elif ended:
+                out.append([k, name, "execution ended"])
+    return out
+
+
 # ------------------------------------------------------------------------------------------------ abstraction
+
+def event_id_of(correlation_id):
+    """the "long form" of a function call (rpcmessage:invoke[.waitForTaskToken]) sends its request under the event's id
+    plus a suffix; replies and task time-outs come back under that correlation id"""
+    for suffix in (".invoke", ".waitForTaskToken"):
+        if isinstance(correlation_id, str) and correlation_id.endswith(suffix):
+            return correlation_id[:-len(suffix)]
+    return correlation_id
+
 
 def slot_kind(x, eid, cancellers):
     if isinstance(x, str) and x in MARK:
@@ -225,6 +260,16 @@ class Abstraction(object):
             raise Unsupported("unknown-attempt")
         return (top["ID"], top["Index"])
 
+    def batch_of(self, stack):
+        """(engine attempt id, lo, hi) when the event re-enters a Map state using MaxConcurrency for its next batch"""
+        if not stack:
+            return None
+        top = stack[-1]
+        if "Index" in top or "ID" not in top or "Range" not in top or top["ID"] not in self.ids:
+            return None
+        lo, hi = [int(x) for x in str(top["Range"]).split(":")]
+        return (top["ID"], lo, hi)
+
     def run(self):
         for k, st in enumerate(self.tr.steps):
             g = self.one(k, st)
@@ -260,10 +305,14 @@ class Abstraction(object):
                     return None
                 if ((body.get("context") or {}).get("Execution") or {}).get("Id") not in (None, self.tr.ea):
                     raise Unsupported("several-executions")
-                trig, kind = self.thread(branch_stack(body)), "event"
                 stack = branch_stack(body)
+                bt = self.batch_of(stack)
+                if bt is not None:
+                    trig, kind = (bt[0], bt[1]), "batch-event"
+                else:
+                    trig, kind = self.thread(stack), "event"
             elif f["cid"] is not None:                       # a reply
-                mid = f["cid"]
+                mid = event_id_of(f["cid"])
                 body = self.tr.bodies.get(mid)
                 if body is None:
                     return None
@@ -279,10 +328,14 @@ class Abstraction(object):
                 if t.get("exec") != self.tr.ea:
                     raise Unsupported("several-executions")
                 mid, stack = t["id"], t["stack"]
-                trig = self.thread(stack)
-                kind = "deferred" if DELEGATES[t["name"]] == "task" else "launch"
+                bt = self.batch_of(stack) if DELEGATES[t["name"]] == "fan" else None
+                if bt is not None:
+                    trig, kind = (bt[0], bt[1]), "batch-launch"
+                else:
+                    trig = self.thread(stack)
+                    kind = "deferred" if DELEGATES[t["name"]] == "task" else "launch"
             elif t.get("name") == "on_timeout":
-                mid = t.get("id")
+                mid = event_id_of(t.get("id"))
                 body = self.tr.bodies.get(mid)
                 if body is None:
                     return None
@@ -301,27 +354,48 @@ class Abstraction(object):
         if kind == "heartbeat":
             if st["ends"] or (b["bm"] is not None and a["bm"] is None):
                 inputs.append(["backstop"])
+
             else:
                 return None
+        elif kind in ("batch-event", "batch-launch"):
+            launch = kind == "batch-launch"
+            dropped = self.dropped(eng, st, mid, "launch" if launch else "event")
+            inputs.append(["batch", self.ids[bt[0]], bt[1], bt[2], launch])
+            exp["accepted"] = not dropped
+            if launch and not dropped:
+                self.info[bt[0]]["hi"] = bt[2]
         elif kind == "launch":
             par = None if trig is None else [self.ids[trig[0]], trig[1]]
             if launches:
                 if len(launches) > 1:
                     raise Unsupported("two-launches-in-a-step")
                 (eid, n, retry, got) = launches[0]
-                if got != n:
-                    raise Unsupported("map-batch")
                 self.register(eid, trig, st["timer"]["state"], n)
-                inputs.append(["launch", self.ids[eid], n, par, retry])
+                self.info[eid]["hi"] = got
+                if got != n:          # a Map using MaxConcurrency: the first batch
+                    inputs.append(["launchMap", self.ids[eid], n, got, par, retry])
+                else:
+                    inputs.append(["launch", self.ids[eid], n, par, retry])
                 exp["accepted"] = True
-            else:
-                dropped = self.dropped(eng, st, mid, "launch")
-                if not dropped:
-                    raise Unsupported("fan-out-did-not-launch")
+            elif self.dropped(eng, st, mid, "launch"):
                 fresh = len(self.ids)
                 self.ids["dropped-launch-%d" % fresh] = fresh
                 inputs.append(["launch", fresh, 1, par, 0])
                 exp["accepted"] = False
+            else:
+                # the state launched nothing: it failed before (its own Retry / Catch, or the failure of its branch), or it is
+                # a Map over an empty array, which completes in its own handler: for the enclosing attempt just another
+                # deferred handler of the branch
+                if trig is None:
+                    if st["ends"]:
+                        for status in st["ends"]:
+                            inputs.append(["topEnd", status == "SUCCEEDED"])
+                    else:
+                        return None
+                else:
+                    kont = self.kont(st, trig, mid, vb, va, b, a, eng)
+                    inputs.append(["deferred", self.ids[trig[0]], trig[1], kont])
+                    exp["accepted"] = True
         else:
             if trig is None:
                 # a top-level step: only the end of the execution concerns the model
@@ -348,8 +422,8 @@ class Abstraction(object):
         for e in echoes:
             inputs.append(["echo", e[0], e[1]])
         # observable outcomes of the step
-        exp["failed"], exp["succeeded"] = self.outcomes(st, b, a, eng, trig, exp.get("accepted") is False)
-        exp["partial"] = a["bm"] is None and b["bm"] is not None
+        exp["failed"], exp["succeeded"] = self.outcomes(st, b, a, eng, trig, exp.get("accepted") is False, kind == "heartbeat")
+        exp["partial"] = a["bm"] is None
         exp["state"] = self.state_view(a)
         return {"inputs": inputs, "expect": exp}
 
@@ -384,8 +458,8 @@ class Abstraction(object):
         ra = (a["bm"] or {}).get(eid)
         name = self.state_name(mid)
         exited = any(t.endswith("StateExited") and n == name for t, n, _ in st["hist"])
-        if a["bm"] is None and b["bm"] is not None:
-            # the join state went away in this step: a result may have arrived first
+        if a["bm"] is None:
+            # the join state went away in this step (or was created and deleted in it): a result may have arrived first
             sd = find_state_def(self.machine, name) or {}
             terminal = bool(sd.get("End")) or sd.get("Type") in ("Succeed", "Fail")
             goes_on = any(f["op"] == "publish" and isinstance(f.get("body"), dict) and "context" in f["body"]
@@ -393,11 +467,20 @@ class Abstraction(object):
             if goes_on:
                 return ["goesOn"]
             if exited and terminal:
+                if "FAILED" in st["ends"]:
+                    # the last result arrived, then a join's ResultSelector / ResultPath failed and nothing handled it
+                    h = st["hist"]
+                    left = any(t.endswith("StateExited") and n == self.info[eid]["name"]
+                               and not (j > 0 and h[j - 1][0] == t[:-len("Exited")] + "Failed") for j, (t, n, _) in enumerate(h))
+                    if left:
+                        raise Unsupported("join-failure-above")
+                    err = ([e for t, n, e in h if t == "ExecutionFailed"] or ["?join"])[0]
+                    return ["doneFail", 1, self.err(err), ["u"] * (self.depth_of(eid) + 1)]
                 return ["done", 1, self.ups(eid)]
             failed = [e for t, n, e in st["hist"] if t == "ExecutionFailed"]
             if failed:
                 return ["fail", self.err(failed[0]), ["u"] * (self.depth_of(eid) + 1)]
-            if self.dropped(eng, st, mid, "deferred"):
+            if self.dropped(eng, st, mid, "deferred") or b["bm"] is None:
                 return ["goesOn"]
             return ["fail", "tt", []]            # the last Task.Terminated the tidy-up was waiting for
         arrived = None
@@ -413,8 +496,51 @@ class Abstraction(object):
                 return ["caughtOn"]
             return ["goesOn"]
         if exited or not (isinstance(arrived, dict) and arrived.get("Error")):
+            if self.check_join_failure(st, eid, b, a):
+                err = self.join_error(st, eid, a)
+                return ["doneFail", 1, self.err(err), self.handled(st, eid, b, a, eng, err)]
             return ["done", 1, self.ups(eid)]
         return ["fail", self.err(arrived.get("Error")), self.handled(st, eid, b, a, eng, arrived.get("Error"))]
+
+    def check_join_failure(self, st, eid, b, a):
+        """a join whose last result arrived in this step but whose state was not left: its ResultSelector / ResultPath /
+        the size limit failed the state after the join.  True: the join of the result's own attempt (the model's `doneFail`);
+        a join further up: outside the model's alphabet"""
+        cur = eid
+        while cur is not None:
+            ra = (a["bm"] or {}).get(cur)
+            rb = (b["bm"] or {}).get(cur)
+            if ra is None or ra.get("terminated") is not None or not all(is_data(x) for x in ra["results"]):
+                return False
+            if rb is not None and all(is_data(x) for x in rb["results"]):
+                return False
+            name = self.info[cur]["name"]
+            h = st["hist"]
+            if not any(t.endswith("StateExited") and n == name and not (j > 0 and h[j - 1][0] == t[:-len("Exited")] + "Failed")
+                       for j, (t, n, _) in enumerate(h)):
+                if cur == eid:
+                    return True
+                raise Unsupported("join-failure-above")
+            par = self.info[cur]["parent"]
+            if par is None or not self.slot_changed_to_data(b, a, par[0], par[1]):
+                return False
+            cur = par[0]
+        return False
+
+    def join_error(self, st, eid, a):
+        """the error a failing join reported: what reached the enclosing attempt / ended the execution (if its own Retry or
+        Catch dealt with it the name is not visible and does not matter)"""
+        par = self.info[eid]["parent"]
+        if par is not None:
+            ra = (a["bm"] or {}).get(par[0])
+            if ra is not None:
+                x = ra["results"][par[1]]
+                if isinstance(x, dict) and x.get("Error"):
+                    return x["Error"]
+        for t, n, e in st["hist"]:
+            if t == "ExecutionFailed" and e:
+                return e
+        return "?join"
 
     def same_thread(self, stack, trig):
         return bool(stack) and "Index" in stack[-1] and (stack[-1].get("ID"), stack[-1].get("Index")) == trig
@@ -492,7 +618,7 @@ class Abstraction(object):
             cur = self.info[cur[0]]["parent"]
         return d
 
-    def outcomes(self, st, b, a, eng, trig, was_dropped):
+    def outcomes(self, st, b, a, eng, trig, was_dropped, backstop=False):
         """attempts that failed (with which error) / joins that handed over in this step, as the engine shows them"""
         failed, succeeded, complete = [], [], []
         chain = set()
@@ -511,7 +637,8 @@ class Abstraction(object):
             elif ra is not None and ra.get("terminated") is not None and (rb is None or rb.get("terminated") is None):
                 # newly terminated: by the Task.Terminated callback of a cancel, unless the step's own event was dropped
                 # (which marks the attempts of its chain)
-                if not (was_dropped and eid in chain):
+                # (… or the back stop ran, which marks every attempt)
+                if not (was_dropped and eid in chain) and not backstop:
                     failed.append([self.ids[eid], "tt"])
             if ra is not None and all(is_data(x) for x in ra["results"]) and \
                     (rb is None or not all(is_data(x) for x in rb["results"])):
@@ -535,7 +662,9 @@ class Abstraction(object):
         v = view(a)
         atts = None
         if v is not None:
-            atts = sorted([[self.ids[eid], t, sl] for eid, (t, sl) in v.items() if eid in self.ids])
+            # (PENDING slots of Map iterations whose batch has not been launched yet)
+            atts = sorted([[self.ids[eid], t, ["U" if x == "P" and j >= self.info[eid].get("hi", len(sl)) else x for j, x in enumerate(sl)]]
+                           for eid, (t, sl) in v.items() if eid in self.info])
         return {"meta": a["bm"] is not None, "ended": a["status"] not in (None, "RUNNING"), "atts": atts}
 
 
@@ -566,7 +695,7 @@ def compare(ab, answer):
             m_acc = not any(o[0] in ("drop", "refused") for o in outs[:1]) if outs else True
             if m_acc != e["accepted"]:
                 return [(g["step"], "dropped-or-accepted", {"accepted": m_acc, "outs": outs}, {"accepted": e["accepted"]})]
-        m_failed = sorted([[o[1], o[2]] for o in outs if o[0] == "fail"] + [[o[1], "tt"] for o in outs if o[0] == "aborted"], key=str)
+        m_failed = sorted([[o[1], o[2]] for o in outs if o[0] in ("fail", "joinFailed")] + [[o[1], "tt"] for o in outs if o[0] == "aborted"], key=str)
         if e.get("partial"):
             # the engine deleted its join state in this step: only the endings and the deletion itself are visible
             if state["meta"] or (state["ended"] is not None) != e["state"]["ended"]:
